@@ -23,12 +23,12 @@ def handleStore : P String := do
   let (a, ars) := Abs.run sp ops
   -- the coupling invariant the theorems are about, evaluated on the reached state and on every derived graph
   let wfOf (st : Store) : String :=
-    if st.wf then "1" else
-      "violated:" ++ (if st.nodesOk then "" else "nodesOk ") ++ (if st.edgesOk then "" else "edgesOk ") ++
+    if st.wf && st.rowsNodup && st.entriesStored then "1" else
+      "violated:" ++ (if st.rowsNodup then "" else "rowsNodup ") ++ (if st.entriesStored then "" else "entriesStored ") ++ (if st.nodesOk then "" else "nodesOk ") ++ (if st.edgesOk then "" else "edgesOk ") ++
         (if st.adjOk then "" else "adjOk ") ++ (if st.vecOk then "" else "vecOk")
   let derivedWf : String :=
     let ds : List (Outcome Store) := ((subsets u).map fun l => s.getSubgraph l) ++ [s.reverse, s.setAllEdgeWeights w, s.toSingleEdges]
-    match ds.findSome? (fun d => match d with | .ok st => if st.wf then none else some (wfOf st) | _ => none) with
+    match ds.findSome? (fun d => match d with | .ok st => if st.wf && st.rowsNodup && st.entriesStored then none else some (wfOf st) | _ => none) with
     | some v => "derived-" ++ v
     | none => "1"
   let m := [("res", pResults rs)] ++ s.api.fields u ++ s.derivedFields u w ++ s.snapFields ++
